@@ -36,7 +36,8 @@ def td(required, optional):
 
 
 def _is_typeddict_meta(t):
-    return type(t).__name__ == "_TypedDictMeta"
+    # the tracer's own TypedDicts are mypy_extensions classes; a typing.TypedDict class of a user module is a named class to it
+    return type(t).__name__ == "_TypedDictMeta" and type(t).__module__ == "mypy_extensions"
 
 
 def to_rt(t, td_specs=None):
